@@ -101,7 +101,7 @@ pub fn replay(prop: &str, file: &str) -> i32 {
         ("C06", "wire") | ("C07", "wire") => Some(parse::<c07w::WireCase>(&case, "a wire session case").and_then(|c| c07w::check_case(&c).map(|_| ()))),
         ("C13", "lock-contention") => Some(parse::<c13l::LockCase>(&case, "a C13 lock contention case").and_then(|c| c13l::check_case(&c).map(|_| ()))),
         ("C19", "rounds") => Some(parse::<c19r::RoundsCase>(&case, "a C19 rounds case").and_then(|c| c19r::check_case(&c).map(|_| ()))),
-        ("C10", "process") => Some(parse::<c18::Case>(&case, "a C10 process case").and_then(|c| c18::check_case_on(&c, &strict, c18::Backend { mode: "Json", interval_s: 1, prop: "C10" }).map(|_| ()))),
+        ("C10", "process") => Some(parse::<c18::Case>(&case, "a C10 process case").and_then(|c| c18::check_case_on(&c, &strict, c18::JSON_1S).map(|_| ()))),
         ("C02", "threaded") | ("C02", "client_update") => None,
         _ => None,
     };
